@@ -281,10 +281,13 @@ pub fn c06(ctx: &Ctx, rep: &mut Report) {
     let mut tried = 0;
     while groups.len() < count && tried < count * 20 {
         tried += 1;
-        let class = *rng.pick(&["uniform", "euclid", "blobs", "sorted", "revsorted", "negmixed", "shrinkline", "geomline"]);
+        let class = *rng.pick(&["uniform", "euclid", "blobs", "sorted", "revsorted", "negmixed", "shrinkline", "geomline", "neargap", "neargap"]);
         let mut n = gen::size(&mut rng, max_n).max(2);
         if class == "shrinkline" && rng.below(3) > 0 {
             n = rng.range(18.min(max_n), max_n.min(90));
+        }
+        if class == "neargap" && rng.below(3) > 0 {
+            n = rng.range(3, 12);
         }
         let method = *rng.pick(&METHODS);
         let w32 = rng.below(2) == 0;
@@ -297,7 +300,7 @@ pub fn c06(ctx: &Ctx, rep: &mut Report) {
         let bits = gen::to_bits(class, w32, &vals0);
         let vals: Vec<f64> = bits.iter().map(|&b| bits_to_f64(w32, b)).collect();
         let nv = oracle::naive_cluster(method, n, &vals);
-        if !(nv.margin > 64.0 * oracle::tol_for(w32)) {
+        if !(nv.margin > oracle::safe_margin(w32, method, n)) {
             rejected += 1;
             continue;
         }
@@ -547,7 +550,7 @@ fn scale_bits(w32: bool, b: u64, k: i32) -> Option<u64> {
 pub fn c09(ctx: &Ctx, rep: &mut Report) {
     rep.rule = "valid cases incl. ties; each run again with every entry multiplied by 2^k (k in +-1,+-7,+-20 f32 / +-100 f64, only when exact and squares stay normal); labels/sizes identical, heights x 2^k bit for bit".into();
     let mut rng = Rng::new(ctx.seed);
-    let classes = ["uniform", "lattice", "allequal", "twovalued", "duppoints", "euclid", "blobs", "sorted", "negmixed"];
+    let classes = ["uniform", "lattice", "allequal", "twovalued", "duppoints", "euclid", "blobs", "sorted", "negmixed", "signedzeros"];
     let base = gen_cases(
         &mut rng,
         &GenSpec { count: n_cases(ctx, 1200, 20000), max_n: if ctx.thorough { 150 } else { 36 }, classes: &classes, algs: &ALGS, methods: &METHODS, min_n: 2 },
@@ -596,7 +599,12 @@ pub fn c09(ctx: &Ctx, rep: &mut Report) {
             let (s1, s2) = (o1.steps().unwrap(), o2.steps().unwrap());
             for (i, (a, b)) in s1.iter().zip(s2).enumerate() {
                 let exp = scale_bits(c.w32, a.bits, k);
-                if a.c1 != b.c1 || a.c2 != b.c2 || a.size != b.size || exp != Some(b.bits) {
+                // equal as VALUES (an image may be +0 where the run reports -0: the same number)
+                let height_ok = match exp {
+                    Some(e) => e == b.bits || bits_to_f64(c.w32, e) == bits_to_f64(c.w32, b.bits),
+                    None => false,
+                };
+                if a.c1 != b.c1 || a.c2 != b.c2 || a.size != b.size || !height_ok {
                     // heights that are subnormal/overflowing after scaling are outside the safe range
                     if exp.is_none() {
                         return Ok(());
@@ -657,7 +665,7 @@ fn weak_orderings(m: usize) -> Vec<Vec<usize>> {
 pub fn c10(ctx: &Ctx, rep: &mut Report) {
     rep.rule = "single/complete on every accepting entry point; each case run again through a strictly increasing map g (affine, cubic, exp-like, log-like, rank transform) applied when injective on the values; labels/sizes identical and heights = g(height) bit for bit; plus all 4683 weak orderings of the 6 entries for n = 4 (thorough: n = 5 sampled exhaustively by rank patterns up to 541*... see distribution)".into();
     let mut rng = Rng::new(ctx.seed);
-    let classes = ["uniform", "lattice", "allequal", "twovalued", "duppoints", "euclid", "blobs", "sorted", "negmixed"];
+    let classes = ["uniform", "lattice", "allequal", "twovalued", "duppoints", "euclid", "blobs", "sorted", "negmixed", "signedzeros"];
     let base = gen_cases(
         &mut rng,
         &GenSpec { count: n_cases(ctx, 1200, 20000), max_n: if ctx.thorough { 150 } else { 36 }, classes: &classes, algs: &ALGS, methods: &[Method::Single, Method::Complete], min_n: 2 },
@@ -677,11 +685,12 @@ pub fn c10(ctx: &Ctx, rep: &mut Report) {
         let mut vs: Vec<u64> = c.bits.clone();
         vs.sort_by(|a, b| bits_to_f64(c.w32, *a).partial_cmp(&bits_to_f64(c.w32, *b)).unwrap());
         vs.dedup();
-        // -0/+0 both present would make g ill-defined as a function of the value: skip
+        // -0 and +0 may both be present: they are ONE value with two bit patterns; g is a function of
+        // the value, so both are sent to g(0) (checked below: images equal exactly where values are)
         let fv: Vec<f64> = vs.iter().map(|&b| bits_to_f64(c.w32, b)).collect();
-        if fv.windows(2).any(|w| w[0] == w[1]) {
-            rep.count("skipped_signed_zero");
-            continue;
+        let both_zeros = fv.windows(2).any(|w| w[0] == w[1]);
+        if both_zeros {
+            rep.count("signed_zero_pair_present");
         }
         let table: Vec<(u64, u64)> = if kind == 4 {
             vs.iter().enumerate().map(|(i, &b)| (b, f64_to_bits(c.w32, (i + 1) as f64))).collect()
@@ -689,7 +698,8 @@ pub fn c10(ctx: &Ctx, rep: &mut Report) {
             vs.iter().map(|&b| (b, f64_to_bits(c.w32, mono_map(kind, bits_to_f64(c.w32, b))))).collect()
         };
         let gv: Vec<f64> = table.iter().map(|t| bits_to_f64(c.w32, t.1)).collect();
-        if gv.windows(2).any(|w| !(w[0] < w[1])) || gv.iter().any(|x| !x.is_finite()) {
+        let order_kept = fv.windows(2).zip(gv.windows(2)).all(|(f, g)| if f[0] == f[1] { g[0] == g[1] } else { g[0] < g[1] });
+        if !order_kept || gv.iter().any(|x| !x.is_finite()) || (both_zeros && kind == 4) {
             rep.count("skipped_map_not_injective");
             continue;
         }
@@ -776,7 +786,13 @@ pub fn c10(ctx: &Ctx, rep: &mut Report) {
                 // heights are input values (single/complete only select): look up by value
                 let av = bits_to_f64(c.w32, a.bits);
                 let exp = table.iter().find(|t| bits_to_f64(c.w32, t.0) == av).map(|t| t.1);
-                if a.c1 != b.c1 || a.c2 != b.c2 || a.size != b.size || exp != Some(b.bits) {
+                // equal as VALUES: with both zeros present the image of the height may be +0 where the run
+                // reports -0 (the same number)
+                let height_ok = match exp {
+                    Some(e) => e == b.bits || bits_to_f64(c.w32, e) == bits_to_f64(c.w32, b.bits),
+                    None => false,
+                };
+                if a.c1 != b.c1 || a.c2 != b.c2 || a.size != b.size || !height_ok {
                     return Err(format!(
                         "g: step {} ({},{},{},{}) became ({},{},{},{}) expected height bits {:?}",
                         i, a.c1, a.c2, av, a.size, b.c1, b.c2, bits_to_f64(c.w32, b.bits), b.size, exp
@@ -821,7 +837,7 @@ pub fn c11(ctx: &Ctx, rep: &mut Report) {
     let mut tried = 0;
     while perms.len() < count && tried < count * 20 {
         tried += 1;
-        let class = *rng.pick(&["uniform", "euclid", "blobs", "sorted", "revsorted", "shrinkline", "geomline"]);
+        let class = *rng.pick(&["uniform", "euclid", "blobs", "sorted", "revsorted", "shrinkline", "geomline", "neargap"]);
         let mut n = gen::size(&mut rng, max_n).max(3);
         if class == "shrinkline" && rng.below(3) > 0 {
             // deep nearest-neighbour chains need many observations
@@ -840,7 +856,7 @@ pub fn c11(ctx: &Ctx, rep: &mut Report) {
         rep.count(&format!("scale.2^{}", k));
         let bits = gen::to_bits(class, w32, &vals0);
         let vals: Vec<f64> = bits.iter().map(|&b| bits_to_f64(w32, b)).collect();
-        if !(oracle::naive_cluster(method, n, &vals).margin > 64.0 * oracle::tol_for(w32)) {
+        if !(oracle::naive_cluster(method, n, &vals).margin > oracle::safe_margin(w32, method, n)) {
             rep.count("rejected_not_tie_free");
             continue;
         }
